@@ -32,11 +32,17 @@ def cases(seed, tier):
     for i in range(n_prog):
         prng = random.Random(rng.getrandbits(64))
         det = i % 4 != 3
-        P = gdirect.gen(prng, partial_joins=not det, merges=not det,
-                        max_tasks=7)
+        if i % 3 == 1:
+            P = gdirect.gen_tree(prng, depth=prng.choice([1, 1, 2]),
+                                 partial_joins=not det, merges=not det)
+        else:
+            P = gdirect.gen(prng, partial_joins=not det, merges=not det,
+                            max_tasks=7)
         if i % 5 == 0:
             # retry / wait policies on some tasks
             for T in P['tasks']:
+                if T.get('workflow'):
+                    continue
                 if prng.random() < 0.3:
                     T['policies'] = {'retry': {'count': 2, 'delay': 1}}
                 elif prng.random() < 0.2:
@@ -59,17 +65,27 @@ def cases(seed, tier):
     return out
 
 
-def _pause_op(state):
+def _pause_op(state, target_kind='root', brng=None):
     def op(w):
         root = w.root()
         if root is None:
             state['skipped'] = True
             return
+        target = root
+        if target_kind == 'sub':
+            subs = sorted((x for x in w.rec.rows['wf'].values()
+                           if x.get('task_execution_id') and
+                           x['state'] == 'RUNNING'),
+                          key=lambda x: (x['workflow_name'], x['id']))
+            if subs:
+                target = subs[brng.randrange(len(subs))]
         state['root'] = root['id']
-        state['wf_state_before'] = root['state']
+        state['target'] = target['id']
+        state['target_is_root'] = target['id'] == root['id']
+        state['wf_state_before'] = target['state']
         state['tasks_before'] = sorted(
             (t['name'], t['state']) for t in w.rec.rows['task'].values())
-        state['holder'] = w.op_pause(root['id'])
+        state['holder'] = w.op_pause(target['id'])
     return op
 
 
@@ -79,8 +95,25 @@ def _resume_phase(state):
             return False
         h = state.get('holder') or {}
         # acknowledged pause => PAUSED now (everything else has drained)
-        root = w.rec.rows['wf'].get(state['root'])
-        state['state_at_resume'] = root and root['state']
+        tgt = w.rec.rows['wf'].get(state['target'])
+        state['state_at_resume'] = tgt and tgt['state']
+        # unfinished sub-workflows of an acknowledged pause are PAUSED too
+        bad = []
+        todo = [state['target']]
+        rows = w.rec.rows
+        while todo:
+            wid = todo.pop()
+            for t in rows['task'].values():
+                if t['workflow_execution_id'] != wid:
+                    continue
+                for x in rows['wf'].values():
+                    if x.get('task_execution_id') == t['id']:
+                        todo.append(x['id'])
+                        if x['state'] not in ('PAUSED', 'SUCCESS', 'ERROR',
+                                              'CANCELLED'):
+                            bad.append((x['workflow_name'], x['state']))
+        state['subs_not_paused'] = bad
+        # pausing a sub-workflow pauses its ancestors: resume from the root
         state['resume'] = w.op_resume(state['root'])
         return True
     return ph
@@ -109,8 +142,10 @@ def run_case(case):
     sample = None
     for b in bounds:
         state = {}
-        run = ec.execute(case, plan=[{'at': b, 'op': _pause_op(state)}],
-                         phases=[_resume_phase(state)])
+        kind = 'sub' if (P.get('children') and brng.random() < 0.4) \
+            else 'root'
+        run = ec.execute(case, plan=[{'at': b, 'op': _pause_op(
+            state, kind, brng)}], phases=[_resume_phase(state)])
         res['executions'] += 1
         _collect(res, run)
         if run.inconclusive:
@@ -136,13 +171,28 @@ def run_case(case):
                     'msg': 'pause acknowledged but execution is %s when '
                            'everything in flight has drained' %
                            state.get('state_at_resume')})
+            if state.get('subs_not_paused'):
+                res['violations'].append({
+                    'prop': 'C10', 'monitor': 'pause-ack',
+                    'mech': 'sub-not-paused', 'boundary': b,
+                    'msg': 'pause acknowledged but sub-workflows %s are not '
+                           'PAUSED when everything in flight has drained' %
+                           state['subs_not_paused']})
             res['monitor_evaluations']['pause-ack'] = \
                 res['monitor_evaluations'].get('pause-ack', 0) + 1
             # (2) same result as the never-paused run
             if case.get('det'):
                 res['monitor_evaluations']['same-as-unpaused'] = \
                     res['monitor_evaluations'].get('same-as-unpaused', 0) + 1
-                d = nf_mod.diff(base.nf, run.nf)
+                # a join that fails early ("Failed by tasks") sees whatever
+                # its other inbound branches had published by then: its
+                # context - hence the output - is racy by design, only
+                # states are compared for such runs
+                if _has_early_failed_join(base.nf) or \
+                        _has_early_failed_join(run.nf):
+                    d = nf_mod.diff(base.state_nf, run.state_nf)
+                else:
+                    d = nf_mod.diff(base.nf, run.nf)
                 stuck = any(x.get('mech') == 'stuck' for x in run.violations)
                 if d and not stuck:
                     res['violations'].append({
@@ -153,6 +203,7 @@ def run_case(case):
                                    b, d)})
             if unfinished:
                 res['keys'].append([shape, len(case['outcomes']), b,
+                                    state.get('target_is_root'),
                                     state.get('tasks_before')])
                 if sample is None:
                     sample = {
@@ -160,6 +211,7 @@ def run_case(case):
                         'input': P['input'], 'outcomes': case['outcomes'],
                         'strategy': case['strategy'],
                         'pause_at_boundary': b,
+                        'pause_target_is_root': state.get('target_is_root'),
                         'tasks_at_pause': state.get('tasks_before'),
                         'state_when_drained': state.get('state_at_resume'),
                         'final': run.state_nf,
@@ -175,3 +227,14 @@ def _collect(res, run):
     ec.merge_counts(res['monitor_evaluations'], run.mon_evals)
     res['interleavings'].append(run.ihash)
     res['states'].append(nf_mod.canon(run.state_nf)[:2000])
+
+
+def _has_early_failed_join(nf):
+    for w in nf:
+        for t in w['tasks']:
+            if (t.get('state_info') or '').startswith('Failed by tasks'):
+                return True
+            for c in t['children']:
+                if _has_early_failed_join([c[1]]):
+                    return True
+    return False
